@@ -51,6 +51,9 @@ def parseCheck : List String → Option (Chk × List String)
   | "lc" :: r => some (.pred .lowercase false none, r)
   | "uc" :: r => some (.pred .uppercase false none, r)
   | "re" :: k :: r => k.toNat?.map fun k => (.pred (.regex k) false none, r)
+  | "rel" :: m :: h :: r => do
+    let m ← m.toNat?; let b ← unhex h
+    pure (.pred (.relit m b) false none, r)
   | "ref" :: k :: a :: w :: r => do
     let k ← k.toNat?
     let w ← if w == "-" then some none else w.toNat?.map (fun n => some (SPred.custom n))
